@@ -276,4 +276,15 @@ LineOf(src, off)    == 1 + Cardinality({o \in TermEnds(src) : o <= off})
 LineStart(src, off) == LET c == {o \in TermEnds(src) : o <= off} IN IF c = {} THEN 0 ELSE Max(c)
 ColOf(src, off)     == off - LineStart(src, off) + 1
 NumLines(src)       == 1 + Cardinality(TermEnds(src))
+
+\* lengths (in characters, terminators excluded) of the lines of src, by one scan
+LineLens(src) ==
+  LET f(a, c) == IF c = LF THEN (IF a.cr THEN [a EXCEPT !.cr = FALSE]
+                                  ELSE [lens |-> Append(a.lens, a.cur), cur |-> 0, cr |-> FALSE])
+                 ELSE IF c = CR THEN [lens |-> Append(a.lens, a.cur), cur |-> 0, cr |-> TRUE]
+                 ELSE [a EXCEPT !.cur = a.cur + 1, !.cr = FALSE]
+      r == FoldLeft(f, [lens |-> <<>>, cur |-> 0, cr |-> FALSE], src)
+  IN Append(r.lens, r.cur)
+\* (l, c) names a position of src: 1-based, at most one past the last character of its line
+InsideInput(src, l, c) == LET lens == LineLens(src) IN l >= 1 /\ l <= Len(lens) /\ c >= 1 /\ c <= lens[l] + 1
 =============================================================================
